@@ -17,8 +17,32 @@ be what the equations are checked against.
 Semantics (see coq/theories/Base/KernelLib.v): usize/u64 = 64 bit, values are N, every function
 returns `option T`, None = the Rust code panics in a debug build.
 
-Adding a kernel = one K(...) entry in KERNEL_GROUPS (plus its keq_ lemma in KernelEq.v).
+Adding a kernel = one K(...) entry in KERNEL_GROUPS (plus its keq_ lemma in KernelEq<Group>.v).
 Only the Python standard library is used.
+
+Beyond plain `fn`s over unsigned integers a group may use:
+  K(name, self_fields={field: type})   a method: the fields of `self` it reads are parameters
+                     `self_<field>`; with `&mut self` the fields it assigns are returned next to
+                     its own result, `(result, self_<f>...)`, also on an early error return
+  C(NAME)            an item-level `const NAME: uN = <literal>;`
+  F(coq, within=fn, stmts=[anchors], params, ret, result, opaque)
+                     a FRAGMENT of a larger function: each anchor must match exactly once inside
+                     `fn <within>`; the statement it starts (up to its `;`, or to the closing `}` of
+                     an `if` statement) is cut out; the statements are wrapped into a synthetic
+                     function over the declared free variables (`opaque` turns accessor calls such
+                     as `fees.base()` into free variables).  Anchor not found / found twice = error.
+  "enums":    {Name: {"file": ...}}    fieldless enum: its variants are READ from the source and
+                     emitted as an Inductive; `match` on it with `|` patterns, `_` and `if` guards
+                     is translated arm by arm (first arm whose pattern and guard hold)
+  "newtypes": {Name: {"repr": "u64", "max": "I64_MAX", "get": ["value"]}}   integer newtype;
+                     `max`: `x.try_into()` into it is `try_into_ranged max x`; "methods": methods
+                     that forward to the wrapped (signed) integer's method of the same name
+  "pins":     [{"file", "fn", "text"}] source the table relies on WITHOUT translating it (one-line
+                     accessors / forwarding methods): compared token by token, a change is an error
+`Result<T, E>` is `result T` (KernelLib: ROk v | RErr; the error value is dropped), so a function
+returning Result has type `option (result T)`: None = panic, Some RErr = it returned an error.
+`?` on Result/Option, `.ok_or(..)`, `.ok_or_else(|| ..)`, `.ok_or_eyre(..)`, `.map_err(..)`,
+`ensure!`, `bail!`, `Ok(..)`, `Err(..)` are supported; i128 values are Z (`/`, `%` = Z.quot, Z.rem).
 """
 import argparse
 import bisect
@@ -31,16 +55,47 @@ import sys
 # the table
 
 
-def K(fn, coq=None, params=None, ret=None, fuel=66, nth=None):
+def K(fn, coq=None, params=None, ret=None, fuel=66, nth=None, self_fields=None):
     """fn: Rust function name (found by `fn <name>` in the group's file)
     coq: name of the generated definition (default: fn)
     params: optional {param name: builtin type} overriding the types written in the source
             (for newtypes/aliases that stand for an integer)
     ret: optional builtin type overriding the return type
     fuel: fuel given to a `loop` (out of fuel = None)
-    nth: which occurrence (1-based) when `fn <name>` occurs more than once in the file"""
-    return {"fn": fn, "coq": coq or fn, "params": params or {}, "ret": ret, "fuel": fuel, "nth": nth}
+    nth: which occurrence (1-based) when `fn <name>` occurs more than once in the file
+    self_fields: for a method (`&self` / `&mut self`): {field name: builtin type}.  Every field the
+            body reads becomes a parameter `self_<field>`; every field it assigns is returned
+            next to the function's own result: `(result, self_<f1>, ...)` (the value at the moment
+            the function returns, also on an early `?`/`return`)"""
+    return {"kind": "fn", "fn": fn, "coq": coq or fn, "params": params or {}, "ret": ret, "fuel": fuel,
+            "nth": nth, "self_fields": self_fields}
 
+
+def C(name, coq=None):
+    """`const NAME: <integer type> = <integer literal>;` at item level -> `Definition NAME : N`"""
+    return {"kind": "const", "fn": name, "coq": coq or name}
+
+
+def F(coq, within, stmts, params, ret, result, opaque=None, nth=None):
+    """A FRAGMENT of a larger function, wrapped into a synthetic function.
+    within: name of the enclosing `fn` (the anchors are searched in its body only)
+    stmts:  list of anchors.  Each anchor is a regular expression (whitespace in it stands for
+            any amount of whitespace) that must match EXACTLY ONCE in the enclosing function;
+            the statement runs from the start of the match to the `;` that terminates it
+            (brackets balanced).  The statements are taken in the order of the list and must
+            occur in that order in the source.
+    params: [(name, builtin type)] the fragment's free variables
+    ret:    builtin return type of the synthetic function
+    result: Rust text of the synthetic tail expression (e.g. "Ok(required_voting_power)")
+    opaque: {Rust expression text: variable name}: a token sequence of the fragment that is to
+            be read as that free variable (e.g. "fees.base()": "base")"""
+    return {"kind": "frag", "fn": coq, "coq": coq, "within": within, "stmts": stmts, "fparams": params,
+            "params": {}, "ret": None, "fret": ret, "result": result, "opaque": opaque or {}, "nth": nth, "fuel": 66,
+            "self_fields": None}
+
+
+BSC_FIELDS = {"max_size_sequencer": "usize", "max_size_cometbft": "usize",
+              "current_size_sequencer": "usize", "current_size_cometbft": "usize"}
 
 KERNEL_GROUPS = [
     {"module": "KMerkle",
@@ -71,10 +126,100 @@ KERNEL_GROUPS = [
      "kernels": [
          K("does_commit_voting_power_have_quorum"),
      ]},
+    # ---- C10: conductor executor / state
+    {"module": "KConductorExec",
+     "file": "crates/astria-conductor/src/executor/mod.rs",
+     "types": {},
+     # fieldless enums: the variants are READ from the source and emitted as an Inductive
+     "enums": {"CommitLevel": {"file": "crates/astria-conductor/src/config.rs"}},
+     "kernels": [
+         K("should_execute_firm_block", nth=2),     # 1 = the method that forwards to it
+     ]},
+    # ---- C06: sequencer block size accounting.  The struct's fields become parameters
+    # `self_<field>`; a `&mut self` method also returns the new value of every field it assigns.
+    {"module": "KProposal",
+     "file": "crates/astria-sequencer/src/proposal/block_size_constraints.rs",
+     "types": {},
+     "kernels": [
+         C("MAX_SEQUENCE_DATA_BYTES_PER_BLOCK"),
+         K("sequencer_has_space", self_fields=BSC_FIELDS),
+         K("cometbft_has_space", self_fields=BSC_FIELDS),
+         K("sequencer_checked_add", self_fields=BSC_FIELDS),
+         K("cometbft_checked_add", self_fields=BSC_FIELDS),
+     ]},
+    # ---- C15: fragments of validate_vote_extensions and of median
+    {"module": "KOracleVote",
+     "file": "crates/astria-sequencer/src/app/vote_extension.rs",
+     "types": {},
+     "kernels": [
+         F("required_voting_power", within="validate_vote_extensions",
+           stmts=["let required_voting_power ="],
+           params=[("total_voting_power", "u64")], ret="Result<u64>",
+           result="Ok(required_voting_power)"),
+         F("voting_power_check", within="validate_vote_extensions",
+           stmts=["if total_voting_power == 0", "let required_voting_power =", "ensure!( submitted_voting_power"],
+           params=[("total_voting_power", "u64"), ("submitted_voting_power", "u64")], ret="Result<()>",
+           result="Ok(())"),
+     ]},
+    {"module": "KOracleMedian",
+     "file": "crates/astria-core/src/oracles/price_feed/utils.rs",
+     "types": {},
+     # Price(i128): `get`/`new` unwrap/wrap; checked_add / checked_div forward to i128's (their
+     # one-line bodies are pinned below: a change there fails the translation)
+     "newtypes": {"Price": {"repr": "i128", "get": ["get"],
+                            "methods": {"checked_add": "Self", "checked_div": "repr"}}},
+     "pins": [
+         {"file": "crates/astria-core/src/oracles/price_feed/types.rs", "fn": "new", "nth": 1,
+          "text": "fn new(value: i128) -> Self { Self(value) }"},
+         {"file": "crates/astria-core/src/oracles/price_feed/types.rs", "fn": "get", "nth": 1,
+          "text": "fn get(self) -> i128 { self.0 }"},
+         {"file": "crates/astria-core/src/oracles/price_feed/types.rs", "fn": "checked_add",
+          "text": "fn checked_add(self, rhs: Self) -> Option<Self> { self.get().checked_add(rhs.get()).map(Self) }"},
+         {"file": "crates/astria-core/src/oracles/price_feed/types.rs", "fn": "checked_div",
+          "text": "fn checked_div(self, rhs: i128) -> Option<Self> { self.get().checked_div(rhs).map(Self) }"},
+     ],
+     "kernels": [
+         F("median_tail", within="median",
+           stmts=["let half_high =", "let half_low =", "let sum =", "let median ="],
+           params=[("higher_price", "Price"), ("lower_price", "Price")], ret="Price",
+           result="median"),
+     ]},
+    # ---- C01: the fee formula inside `fee` (async, generic: only the two arithmetic statements
+    # are taken; the three accessor calls are read as free u128 variables)
+    {"module": "KFee",
+     "file": "crates/astria-sequencer/src/checked_actions/utils.rs",
+     "types": {},
+     "pins": [
+         {"file": "crates/astria-core/src/protocol/fees/v1.rs", "fn": "base",
+          "text": "fn base(&self) -> u128 { self.base }"},
+         {"file": "crates/astria-core/src/protocol/fees/v1.rs", "fn": "multiplier",
+          "text": "fn multiplier(&self) -> u128 { self.multiplier }"},
+         {"file": "crates/astria-sequencer/src/fees/fee_handler.rs", "fn": "variable_component", "decl": True,
+          "text": "fn variable_component(&self) -> u128;"},
+     ],
+     "kernels": [
+         F("total_fee", within="fee",
+           stmts=["let variable_fee =", "let total_fee ="],
+           params=[("base", "u128"), ("multiplier", "u128"), ("variable_component", "u128")], ret="u128",
+           result="total_fee",
+           opaque={"fees.base()": "base", "fees.multiplier()": "multiplier",
+                   "action.variable_component()": "variable_component"}),
+     ]},
+    {"module": "KConductorState",
+     "file": "crates/astria-conductor/src/state.rs",
+     "types": {},
+     # tendermint::block::Height (tendermint-0.40.4 src/block/height.rs): a u64 newtype whose
+     # TryFrom<u64> fails iff the value does not fit an i64; `.value()` reads the u64
+     "newtypes": {"SequencerHeight": {"repr": "u64", "max": "I64_MAX", "get": ["value"]}},
+     "kernels": [
+         K("map_rollup_number_to_sequencer_height"),
+         K("try_map_sequencer_height_to_rollup_height"),
+     ]},
 ]
 
 USIZE_BITS = 64
 INT_BITS = {"u8": 8, "u16": 16, "u32": 32, "u64": 64, "u128": 128, "usize": USIZE_BITS}
+SINT_BITS = {"i8": 8, "i16": 16, "i32": 32, "i64": 64, "i128": 128, "isize": USIZE_BITS}
 MAXNAME = {8: "U8_MAX", 16: "U16_MAX", 32: "U32_MAX", 64: "U64_MAX", 128: "U128_MAX"}
 
 # names a Rust variable must not take in the generated text
@@ -84,7 +229,8 @@ then using where with Type Set Prop SProp Some None true false tt N nat bool opt
 bind assert lnot shl shr next_power_of_two is_power_of_two checked_add checked_sub checked_mul
 checked_div checked_rem saturating_add saturating_sub saturating_mul wrapping_add wrapping_sub
 wrapping_mul abs_diff truncate is_some unwrap_or negb andb orb xorb fst snd pair
-U8_MAX U16_MAX U32_MAX U64_MAX U128_MAX
+U8_MAX U16_MAX U32_MAX U64_MAX U128_MAX I64_MAX I128_MAX I128_MIN result ROk RErr ok_or unwrap_res is_ok
+try_into_ranged Z i_checked_add i_checked_sub i_checked_div self
 """.split())
 
 
@@ -190,13 +336,18 @@ AS_BP = 10
 ASSIGN_OPS = {"=", "+=", "-=", "*=", "/=", "%=", "&=", "|=", "^=", "<<=", ">>="}
 BLOCKLIKE = {"if", "loop", "match", "while", "for", "unsafe"}
 PANIC_MACROS = {"panic", "unreachable", "unimplemented", "todo"}
+ERR_VALUE_MACROS = {"eyre", "anyhow", "format"}      # build an error value; cannot panic, no effect
 
 
 class Parser:
-    def __init__(self, toks, type_aliases):
+    def __init__(self, toks, type_aliases, enums=None, newtypes=None, self_fields=None):
         self.toks = toks
         self.i = 0
         self.aliases = type_aliases
+        self.enums = enums or {}            # name -> [variants]
+        self.newtypes = newtypes or {}      # name -> {"repr":..., "max":..., "get":[...]}
+        self.self_fields = self_fields      # None = a receiver is not allowed
+        self.recv = None
 
     # -- token helpers
     def peek(self, k=0):
@@ -253,8 +404,33 @@ class Parser:
         name = self.aliases.get(name, name)
         if name in INT_BITS:
             return ("int", INT_BITS[name])
+        if name in SINT_BITS:
+            return ("sint", SINT_BITS[name])
         if name == "bool":
             return ("bool",)
+        if name in self.enums:
+            return ("enum", name)
+        if name in self.newtypes:
+            return ("nt", name)
+        if name == "Result":
+            # Result<T, E> / eyre::Result<T>: the error value is not modelled
+            self.expect("<")
+            inner = self.parse_type()
+            if self.accept(","):
+                depth = 0
+                while True:
+                    q = self.peek()
+                    if q.kind == "eof":
+                        raise Unsupported("unterminated Result<..>", t.line)
+                    if q.kind == "op" and q.val in ("<", "(", "["):
+                        depth += 1
+                    elif q.kind == "op" and q.val in (">", ")", "]"):
+                        if depth == 0:
+                            break
+                        depth -= 1
+                    self.next()
+            self.expect(">")
+            return ("res", inner)
         if name == "Option":
             self.expect("<")
             inner = self.parse_type()
@@ -274,6 +450,22 @@ class Parser:
         self.expect("(")
         params = []
         while not self.at(")"):
+            if not params and self.recv is None and (self.at("&") or self.at("self") or
+                                                     (self.at("mut") and self.at("self", 1))):
+                if self.self_fields is None:
+                    raise Unsupported("method receiver `self` (give the kernel self_fields= in the table)",
+                                      self.peek().line)
+                self.recv = "val"
+                if self.accept("&"):
+                    self.recv = "ref"
+                    if self.peek().kind == "life":
+                        self.next()
+                if self.accept("mut"):
+                    self.recv = "mut" if self.recv == "ref" else "val"
+                self.expect("self")
+                if not self.accept(","):
+                    break
+                continue
             if self.at("&") or self.at("self"):
                 raise Unsupported("method receiver `self`", self.peek().line)
             self.accept("mut")
@@ -317,7 +509,7 @@ class Parser:
         if self.at("where"):
             raise Unsupported("where clause", self.peek().line)
         body = self.parse_block()
-        return Node("fn", t.line, name=name, params=params, ret=ret, body=body)
+        return Node("fn", t.line, name=name, params=params, ret=ret, body=body, recv=self.recv)
 
     # -- blocks and statements
     def parse_block(self):
@@ -458,6 +650,10 @@ class Parser:
                 if self.at("::"):
                     raise Unsupported("turbofish on method `%s`" % name, t.line)
                 if not self.at("("):
+                    if e.kind == "var" and e.name == "self" and self.self_fields is not None \
+                            and name in self.self_fields:
+                        e = Node("var", t.line, name="self_" + name)
+                        continue
                     raise Unsupported("field access `.%s`" % name, t.line)
                 args = self.parse_args()
                 e = Node("method", t.line, recv=e, name=name, args=args)
@@ -470,6 +666,48 @@ class Parser:
                 raise Unsupported("indexing `[...]`", t.line)
             else:
                 return e
+
+    def parse_match_pat(self):
+        t = self.peek()
+        if t.kind != "id":
+            raise Unsupported("match pattern starting with `%s` (only enum variants and `_`)" % t.val, t.line)
+        segs = [self.ident().val]
+        while self.accept("::"):
+            segs.append(self.ident().val)
+        if self.at("(") or self.at("{") or self.at("@") or self.at("..") or self.at("..="):
+            raise Unsupported("structured / range match pattern", t.line)
+        if segs == ["_"]:
+            return ("wild",)
+        if len(segs) < 2:
+            raise Unsupported("match pattern `%s` (a binding or a constant; only `Enum::Variant` and `_`)"
+                              % segs[0], t.line)
+        return ("variant", segs[-2], segs[-1])
+
+    def parse_match(self):
+        t = self.expect("match")
+        scrut = self.parse_expr(0)
+        self.expect("{")
+        arms = []
+        while not self.at("}"):
+            self.accept("|")
+            pats = [self.parse_match_pat()]
+            while self.accept("|"):
+                pats.append(self.parse_match_pat())
+            guard = None
+            if self.accept("if"):
+                if self.at("let"):
+                    raise Unsupported("`if let` guard", t.line)
+                guard = self.parse_expr(0)
+            self.expect("=>")
+            # an arm whose body is a block ends with that block (no operator may continue it)
+            body = self.parse_block() if self.at("{") else self.parse_expr(0)
+            arms.append((pats, guard, body))
+            if not self.accept(","):
+                if body.kind == "block" and not self.at("}"):
+                    continue
+                break
+        self.expect("}")
+        return Node("match", t.line, scrut=scrut, arms=arms)
 
     def parse_closure(self):
         t = self.peek()
@@ -564,7 +802,9 @@ class Parser:
         if v == "loop":
             self.next()
             return Node("loop", t.line, body=self.parse_block())
-        if v in ("match", "while", "for", "unsafe", "async", "move"):
+        if v == "match":
+            return self.parse_match()
+        if v in ("while", "for", "unsafe", "async", "move"):
             raise Unsupported("`%s` expression" % v, t.line)
         if v in ("return", "break"):
             self.next()
@@ -655,12 +895,14 @@ def unify(a, b, line, what):
         return b
     if b == T_NEVER or b == T_UNK:
         return a
-    if a == T_LIT and is_int(b):
+    if a == T_LIT and (is_int(b) or b[0] == "sint"):
         return b
-    if b == T_LIT and is_int(a):
+    if b == T_LIT and (is_int(a) or a[0] == "sint"):
         return a
     if a[0] == "opt" and b[0] == "opt":
         return ("opt", unify(a[1], b[1], line, what))
+    if a[0] == "res" and b[0] == "res":
+        return ("res", unify(a[1], b[1], line, what))
     if a[0] == "tup" and b[0] == "tup" and len(a[1]) == len(b[1]):
         return ("tup", tuple(unify(x, y, line, what) for x, y in zip(a[1], b[1])))
     if a == b:
@@ -674,9 +916,18 @@ def show_ty(t):
         return "u%d" % t[1]
     if k == "opt":
         return "Option<%s>" % show_ty(t[1])
+    if k == "res":
+        return "Result<%s, _>" % show_ty(t[1])
+    if k == "sint":
+        return "i%d" % t[1]
+    if k in ("enum", "nt"):
+        return t[1]
     if k == "tup":
         return "(%s)" % ", ".join(show_ty(x) for x in t[1])
     return {"bool": "bool", "unit": "()", "lit": "{integer}", "never": "!", "unk": "_"}.get(k, str(t))
+
+
+NT_COQ = {}      # newtype name -> "N" / "Z" (set per group)
 
 
 def coq_ty(t, line=None):
@@ -689,6 +940,14 @@ def coq_ty(t, line=None):
         return "unit"
     if k == "opt":
         return "option %s" % P(coq_ty(t[1], line))
+    if k == "res":
+        return "result %s" % P(coq_ty(t[1], line))
+    if k == "nt":
+        return NT_COQ[t[1]]
+    if k == "sint":
+        return "Z"
+    if k == "enum":
+        return t[1]
     if k == "tup":
         return "(%s)" % " * ".join(P(coq_ty(x, line)) for x in t[1])
     raise Unsupported("cannot name the type %s in Coq" % show_ty(t), line)
@@ -811,6 +1070,30 @@ class FnTranslator:
             return ("ret", "match %s with Some %s => %s | None => %s end" % (o, x, s[1], n[1]))
         return ("matchopt", o, x, s, n)
 
+    @staticmethod
+    def smart_matchres(o, x, s, n):
+        if s[0] == "ret" and n[0] == "ret":
+            return ("ret", "match %s with ROk %s => %s | RErr => %s end" % (o, x, s[1], n[1]))
+        return ("matchres", o, x, s, n)
+
+    @staticmethod
+    def smart_matchenum(x, arms):
+        if all(a[0] == "ret" for _, a in arms):
+            return ("ret", "match %s with %s end" % (x, " | ".join("%s => %s" % (c, a[1]) for c, a in arms)))
+        return ("matchenum", x, arms)
+
+    def is_error_value(self, e):
+        """an expression that only builds an error value (never panics, no effect): dropped"""
+        if e.kind == "str":
+            return True
+        if e.kind == "macro" and e.name in ERR_VALUE_MACROS:
+            return True
+        if e.kind == "closure":
+            return self.is_error_value(e.body)
+        if e.kind == "block" and not e.stmts and e.tail is not None:
+            return self.is_error_value(e.tail)
+        return False
+
     # ---- types of expressions
     def typeof(self, e, env):
         k = e.kind
@@ -862,6 +1145,12 @@ class FnTranslator:
             p = e.path
             if p == ["Some"] and len(e.args) == 1:
                 return ("opt", self.typeof(e.args[0], env))
+            if p == ["Ok"] and len(e.args) == 1:
+                return ("res", self.typeof(e.args[0], env))
+            if p == ["Err"] and len(e.args) == 1:
+                return ("res", T_UNK)
+            if len(p) == 2 and p[0] in self.group.get("newtypes", {}) and p[1] == "new" and len(e.args) == 1:
+                return ("nt", p[0])
             if len(p) == 2 and p[0] in INT_BITS and p[1] == "from":
                 return ("int", INT_BITS[p[0]])
             if len(p) == 1 and p[0] in self.kernels:
@@ -873,9 +1162,14 @@ class FnTranslator:
             return self.method_type(e, rt, env)
         if k == "try":
             t = self.typeof(e.e, env)
-            if t[0] != "opt":
-                raise self.err("`?` on %s (only Option is supported)" % show_ty(t), ln)
+            if t[0] not in ("opt", "res"):
+                raise self.err("`?` on %s (only Option and Result are supported)" % show_ty(t), ln)
             return t[1]
+        if k == "match":
+            t = T_NEVER
+            for (_, g, b) in e.arms:
+                t = unify(t, self.typeof(b, env), ln, "match arms")
+            return t
         if k == "if":
             a = self.block_type(e.th, env)
             if e.el is None:
@@ -888,7 +1182,7 @@ class FnTranslator:
         if k in ("return", "break", "continue"):
             return T_NEVER
         if k == "macro":
-            return T_NEVER if e.name in PANIC_MACROS else T_UNIT
+            return T_NEVER if e.name in PANIC_MACROS or e.name == "bail" else T_UNIT
         raise self.err("expression `%s`" % k, ln)
 
     def block_type(self, b, env):
@@ -899,7 +1193,7 @@ class FnTranslator:
                 self.bind_pattern_types(s.pat, t, env, s.line)
             elif s.kind == "expr" and s.e.kind in ("return", "break", "continue"):
                 return T_NEVER
-            elif s.kind == "expr" and s.e.kind == "macro" and s.e.name in PANIC_MACROS:
+            elif s.kind == "expr" and s.e.kind == "macro" and (s.e.name in PANIC_MACROS or s.e.name == "bail"):
                 return T_NEVER
         if b.tail is None:
             return T_UNIT
@@ -932,6 +1226,18 @@ class FnTranslator:
                 return rt
             if m == "is_power_of_two":
                 return T_BOOL
+            if m == "try_into":
+                return ("res", T_UNK)
+        if rt[0] == "sint" and m in ("checked_add", "checked_sub", "checked_div"):
+            return ("opt", rt)
+        if rt[0] == "nt":
+            nt = self.group["newtypes"][rt[1]]
+            if m in nt.get("get", []):
+                return builtin_type(nt["repr"], ln)
+            if m in nt.get("methods", {}):
+                # a method that forwards to the same method of the wrapped integer (its source is
+                # pinned in the table): Option<Self>
+                return ("opt", rt)
         if rt[0] == "opt":
             if m in ("unwrap", "expect"):
                 return rt[1]
@@ -939,6 +1245,15 @@ class FnTranslator:
                 return T_BOOL
             if m == "unwrap_or":
                 return unify(rt[1], self.typeof(e.args[0], env), ln, ".unwrap_or") if e.args else rt[1]
+            if m in ("ok_or", "ok_or_else", "ok_or_eyre"):
+                return ("res", rt[1])
+        if rt[0] == "res":
+            if m in ("unwrap", "expect"):
+                return rt[1]
+            if m in ("is_ok", "is_err"):
+                return T_BOOL
+            if m in ("map_err", "wrap_err", "wrap_err_with", "context"):
+                return rt
         raise self.err("method `.%s()` on %s" % (m, show_ty(rt)), ln)
 
     def width(self, t, line, what):
@@ -1008,16 +1323,20 @@ class FnTranslator:
             return self.tr_method(e, env, k)
         if kind == "try":
             t = self.typeof(e.e, env)
-            if t[0] != "opt":
-                raise self.err("`?` on %s (only Option is supported)" % show_ty(t), ln)
-            if self.ret_ty[0] != "opt":
-                raise self.err("`?` in a function that does not return Option", ln)
+            if t[0] not in ("opt", "res"):
+                raise self.err("`?` on %s (only Option and Result are supported)" % show_ty(t), ln)
+            if self.ret_ty[0] != t[0]:
+                raise self.err("`?` on %s in a function that returns %s" % (show_ty(t), show_ty(self.ret_ty)), ln)
             self.no_exit_here("`?`", ln)
 
             def on_opt(o):
                 x = self.fresh()
+                if t[0] == "res":
+                    return self.smart_matchres(o, x, self.deliver_pure(x, k), ("ret", "RErr"))
                 return self.smart_matchopt(o, x, self.deliver_pure(x, k), ("ret", "None"))
             return self.tr(e.e, env, Kont("anon", f=on_opt))
+        if kind == "match":
+            return self.tr_match(e, env, k)
         if kind == "if":
             if e.el is None:
                 raise self.err("`if` without `else` whose block does not end in break/return", ln)
@@ -1069,6 +1388,40 @@ class FnTranslator:
         t = self.typeof(e, env)
         unify(t, want, e.line, what)
 
+    def sint_bounds(self, t, ln):
+        if t[1] != 128:
+            raise self.err("signed %d-bit arithmetic (only i128 has its bounds in KernelLib)" % t[1], ln)
+        return "I128_MIN", "I128_MAX"
+
+    def tr_s(self, e, env, k):
+        """an operand of signed arithmetic: literals are written in Z"""
+        if e.kind == "lit":
+            return self.deliver_pure("%d%%Z" % e.v, k)
+        return self.tr(e, env, k)
+
+    def tr_bin_sint(self, e, env, k, t):
+        op, ln = e.op, e.line
+        mn, mx = self.sint_bounds(t, ln)
+        two = lambda f: self.tr_s(e.a, env, Kont("anon", f=lambda a: self.tr_s(e.b, env, Kont(
+            "anon", f=lambda b: f(P(a), P(b))))))
+        if op in ("==", "!=", "<", ">", "<=", ">="):
+            fmt = {"==": "(%s =? %s)%%Z", "!=": "negb (%s =? %s)%%Z", "<": "(%s <? %s)%%Z", "<=": "(%s <=? %s)%%Z",
+                   ">": "(%s <? %s)%%Z", ">=": "(%s <=? %s)%%Z"}[op]
+            if op in (">", ">="):
+                return two(lambda a, b: self.deliver_pure(fmt % (b, a), k))
+            return two(lambda a, b: self.deliver_pure(fmt % (a, b), k))
+        if op in ("/", "%"):
+            # Rust's / and % on signed integers truncate towards zero: Z.quot / Z.rem
+            if e.b.kind == "lit" and e.b.v != 0:
+                f = "Z.quot %s %s" if op == "/" else "Z.rem %s %s"
+                return two(lambda a, b: self.deliver_pure(f % (a, b), k))
+            f = "i_checked_div %s" % mn + " %s %s" if op == "/" else "i_checked_rem %s" % mn + " %s %s"
+            return two(lambda a, b: self.deliver_ir(("comp", f % (a, b)), k))
+        if op in ("+", "-"):
+            f = ("i_checked_add" if op == "+" else "i_checked_sub") + " %s %s" % (mn, mx) + " %s %s"
+            return two(lambda a, b: self.deliver_ir(("comp", f % (a, b)), k))
+        raise self.err("`%s` on %s" % (op, show_ty(t)), ln)
+
     def tr_bin(self, e, env, k):
         op, ln = e.op, e.line
         if op in ("&&", "||"):
@@ -1099,6 +1452,8 @@ class FnTranslator:
             return self.tr(e.a, env, Kont("anon", f=lambda a: self.deliver_pure(
                 "N.shiftr %s %d" % (P(a), e.b.v), k)))
         t = unify(ta, tb, ln, "`%s`" % op)
+        if t[0] == "sint":
+            return self.tr_bin_sint(e, env, k, t)
         if op in ("==", "!=", "<", ">", "<=", ">="):
             if t == T_BOOL:
                 if op not in ("==", "!="):
@@ -1141,6 +1496,20 @@ class FnTranslator:
             if len(e.args) != 1:
                 raise self.err("Some(..) with %d arguments" % len(e.args), ln)
             return self.tr(e.args[0], env, Kont("anon", f=lambda x: self.deliver_pure("Some %s" % P(x), k)))
+        if p == ["Ok"] and len(e.args) == 1:
+            return self.tr(e.args[0], env, Kont("anon", f=lambda x: self.deliver_pure("ROk %s" % P(x), k)))
+        if p == ["Err"] and len(e.args) == 1:
+            if not self.is_error_value(e.args[0]):
+                raise self.err("Err(..) of something that is not a plain error value (string, eyre!)", ln)
+            return self.deliver_pure("RErr", k)
+        if len(p) == 2 and p[0] in self.group.get("newtypes", {}) and p[1] == "new" and len(e.args) == 1:
+            nt = self.group["newtypes"][p[0]]
+            if nt.get("max") is not None:
+                raise self.err("`%s::new` of a range-restricted newtype" % p[0], ln)
+            unify(self.typeof(e.args[0], env), builtin_type(nt["repr"], ln), ln, "%s::new" % p[0])
+            if e.args[0].kind == "lit" and builtin_type(nt["repr"], ln)[0] == "sint":
+                return self.deliver_pure("%d%%Z" % e.args[0].v, k)
+            return self.tr(e.args[0], env, k)
         if len(p) == 2 and p[0] in INT_BITS and p[1] == "from":
             if len(e.args) != 1:
                 raise self.err("%s::from with %d arguments" % (p[0], len(e.args)), ln)
@@ -1181,6 +1550,20 @@ class FnTranslator:
                         "is_power_of_two %s" % P(r), k)))
                 return self.tr(e.recv, env, Kont("anon", f=lambda r: self.deliver_ir(
                     ("comp", "next_power_of_two %s %s" % (mx, P(r))), k)))
+            if m == "try_into":
+                nargs(0)
+                if not (k.kind == "ret" and not self.nontail and self.ret_ty[0] == "res"):
+                    raise self.err("`.try_into()` whose target type is not fixed by the function's "
+                                   "return type", ln)
+                tgt = self.ret_ty[1]
+                if tgt[0] == "nt" and self.group["newtypes"][tgt[1]].get("max") is not None:
+                    lim = self.group["newtypes"][tgt[1]]["max"]
+                elif tgt[0] == "int":
+                    lim = MAXNAME[tgt[1]]
+                else:
+                    raise self.err("`.try_into()` into %s" % show_ty(tgt), ln)
+                return self.tr(e.recv, env, Kont("anon", f=lambda r: self.deliver_pure(
+                    "try_into_ranged %s %s" % (lim, P(r)), k)))
             nargs(1)
             if m == "saturating_div":
                 if e.args[0].kind == "lit" and e.args[0].v != 0:
@@ -1204,6 +1587,47 @@ class FnTranslator:
             }[m]
             return self.tr_list([e.recv, e.args[0]], env, lambda ts: self.deliver_pure(
                 fmt % (P(ts[0]), P(ts[1])), k))
+        if rt[0] == "sint" or (rt[0] == "nt" and m in self.group["newtypes"][rt[1]].get("methods", {})):
+            nargs(1)
+            if rt[0] == "nt":
+                spec = self.group["newtypes"][rt[1]]
+                rep_t = builtin_type(spec["repr"], ln)
+                want = rt if spec["methods"][m] == "Self" else rep_t
+                if rep_t[0] != "sint":
+                    raise self.err("forwarded method `.%s()` of a newtype over %s" % (m, show_ty(rep_t)), ln)
+            else:
+                rep_t, want = rt, rt
+            unify(self.typeof(e.args[0], env), want, ln, "argument of `.%s()`" % m)
+            mn, mx = self.sint_bounds(rep_t, ln)
+            fmt = {"checked_add": "i_checked_add %s %s" % (mn, mx) + " %s %s",
+                   "checked_sub": "i_checked_sub %s %s" % (mn, mx) + " %s %s",
+                   "checked_div": "i_checked_div %s" % mn + " %s %s"}[m]
+            return self.tr_s(e.recv, env, Kont("anon", f=lambda a: self.tr_s(e.args[0], env, Kont(
+                "anon", f=lambda b: self.deliver_pure(fmt % (P(a), P(b)), k)))))
+        if rt[0] == "nt":
+            nt = self.group["newtypes"][rt[1]]
+            nargs(0)
+            return self.tr(e.recv, env, k)
+        if rt[0] == "res":
+            if m in ("unwrap", "expect"):
+                return self.tr(e.recv, env, Kont("anon", f=lambda o: self.deliver_ir(
+                    ("comp", "unwrap_res %s" % P(o)), k)))
+            if m in ("is_ok", "is_err"):
+                nargs(0)
+                fmt = "is_ok %s" if m == "is_ok" else "negb (is_ok %s)"
+                return self.tr(e.recv, env, Kont("anon", f=lambda o: self.deliver_pure(fmt % P(o), k)))
+            # map_err / wrap_err / context: only the error value changes, which is not modelled
+            nargs(1)
+            if not self.is_error_value(e.args[0]):
+                raise self.err("`.%s()` with an argument that is not a plain error value" % m, ln)
+            return self.tr(e.recv, env, k)
+        if m in ("ok_or", "ok_or_else", "ok_or_eyre"):
+            nargs(1)
+            if not self.is_error_value(e.args[0]):
+                raise self.err("`.%s()` with an argument that is not a plain error value" % m, ln)
+            if m == "ok_or_else" and (e.args[0].kind != "closure" or e.args[0].params):
+                raise self.err("`.ok_or_else()` needs a closure without arguments", ln)
+            return self.tr(e.recv, env, Kont("anon", f=lambda o: self.deliver_pure("ok_or %s" % P(o), k)))
         # Option receiver
         if m in ("unwrap", "expect"):
             if m == "unwrap":
@@ -1255,7 +1679,57 @@ class FnTranslator:
                 "bind", "_", ("comp", "assert %s" % P(c)), self.deliver_pure("tt", k))))
         if m in PANIC_MACROS:
             return ("fail", m + "!")
+        if m == "ensure":
+            # ensure!(cond, msg..): `if !cond { return Err(..) }`
+            if not e.args:
+                raise self.err("`ensure!` without a condition", ln)
+            if self.ret_ty[0] != "res":
+                raise self.err("`ensure!` in a function that does not return Result", ln)
+            self.no_exit_here("`ensure!`", ln)
+            self.expect_type(e.args[0], env, T_BOOL, "`ensure!`")
+            return self.tr(e.args[0], env, Kont("anon", f=lambda c: (
+                "if", c, self.deliver_pure("tt", k), ("ret", "RErr"))))
+        if m == "bail":
+            if self.ret_ty[0] != "res":
+                raise self.err("`bail!` in a function that does not return Result", ln)
+            self.no_exit_here("`bail!`", ln)
+            return ("ret", "RErr")
         raise self.err("macro `%s!`" % m, ln)
+
+    def tr_match(self, e, env, k):
+        ln = e.line
+        st = self.typeof(e.scrut, env)
+        if st[0] != "enum":
+            raise self.err("`match` on %s (only fieldless enums named in the table)" % show_ty(st), ln)
+        variants = self.group["enum_variants"][st[1]]
+        for (pats, g, b) in e.arms:
+            for pt in pats:
+                if pt[0] == "variant" and (pt[1] not in (st[1], "Self") or pt[2] not in variants):
+                    raise self.err("pattern `%s::%s` is not a variant of %s" % (pt[1], pt[2], st[1]), ln)
+            if g is not None:
+                self.expect_type(g, env, T_BOOL, "match guard")
+        self.typeof(e, env)
+
+        def chain(v, i):
+            """the arms from i on, for the scrutinee value v: first arm whose pattern covers v
+            and whose guard holds"""
+            while i < len(e.arms):
+                pats, g, b = e.arms[i]
+                if any(pt[0] == "wild" or pt[2] == v for pt in pats):
+                    break
+                i += 1
+            else:
+                raise self.err("`match` does not cover %s::%s" % (st[1], v), ln)
+            pats, g, b = e.arms[i]
+            if g is None:
+                return self.tr(b, env, RET)
+            return self.tr(g, env, Kont("anon", f=lambda c: self.smart_if(
+                c, self.tr(b, env, RET), chain(v, i + 1))))
+
+        def on_s(x):
+            ir = self.sub_ir(k, lambda: self.smart_matchenum(x, [(v, chain(v, 0)) for v in variants]))
+            return self.deliver_ir(ir, k)
+        return self.tr(e.scrut, env, Kont("anon", f=on_s))
 
     # ---- blocks
     def diverges(self, b):
@@ -1269,7 +1743,7 @@ class FnTranslator:
             return False
         if last.kind in ("return", "break", "continue"):
             return True
-        if last.kind == "macro" and last.name in PANIC_MACROS:
+        if last.kind == "macro" and (last.name in PANIC_MACROS or last.name == "bail"):
             return True
         if last.kind == "if" and last.el is not None:
             return self.diverges(last.th) and self.diverges(last.el)
@@ -1341,7 +1815,8 @@ class FnTranslator:
                 el = self.tr_block(e.el, env, Kont("bind", pat="_", rest=rest_with(env)))
                 return ("if", c, th, el)
             return self.tr(e.c, env, Kont("anon", f=on_c))
-        if e.kind in ("return", "break", "continue") or (e.kind == "macro" and e.name in PANIC_MACROS):
+        if e.kind in ("return", "break", "continue") or (e.kind == "macro" and (e.name in PANIC_MACROS
+                                                                                 or e.name == "bail")):
             return self.tr(e, env, k)            # what follows is unreachable
         if e.kind == "loop":
             raise self.err("`loop` that is not the last expression of the function", ln)
@@ -1389,8 +1864,30 @@ class FnTranslator:
     # ---- whole function
     def translate(self):
         f = self.fn
-        env = {}
+        env = {cn: c[0] for cn, c in self.group.get("_consts", {}).items()}
         binders = []
+        mutated = []
+        if f.recv is not None:
+            fields = self.entry["self_fields"]
+            used = names_used(f.body)
+            assigned = assigned_names(f.body)
+            for fld, fty in fields.items():
+                v = "self_" + fld
+                if v in used:
+                    ft = builtin_type(fty, f.line)
+                    env[v] = ft
+                    binders.append("(%s : %s)" % (self.var(v), coq_ty(ft, f.line)))
+                    if v in assigned:
+                        mutated.append(v)
+            if "self" in used:
+                raise self.err("`self` used other than as `self.<field>` of a field named in the table", f.line)
+            if mutated and f.recv != "mut":
+                raise self.err("assignment to a field of `self` without `&mut self`", f.line)
+            if mutated and has_kind(f.body, "loop"):
+                raise self.err("`loop` in a method that assigns fields of `self`", f.line)
+            for n in let_names(f.body) | set(pn for (pn, _, _) in f.params):
+                if n in env:
+                    raise self.err("local `%s` collides with the name given to a field of `self`" % n, f.line)
         for (pn, pt, pl) in f.params:
             if pn in self.entry["params"]:
                 pt = builtin_type(self.entry["params"][pn], pl)
@@ -1407,9 +1904,80 @@ class FnTranslator:
         bt = self.block_type(f.body, env)
         unify(bt, ret, f.line, "the function's result")
         body = self.tr_block(f.body, env, RET, straight=True)
+        rty = coq_ty(ret, f.line)
+        if mutated:
+            # the fields' values at the moment the function returns (assignments are only accepted
+            # in straight-line code, where the Coq name is rebound, so the name IS the value)
+            body = wrap_tail(body, [self.var(v) for v in mutated], self.fresh)
+            rty = " * ".join([P(rty)] + [coq_ty(env[v], f.line) for v in mutated])
+        self.mutated = mutated
         head = "Definition %s %s: option %s :=\n" % (
-            self.entry["coq"], "".join(b + " " for b in binders), P(coq_ty(ret, f.line)))
+            self.entry["coq"], "".join(b + " " for b in binders), P(rty))
         return "".join(a + "\n" for a in self.aux) + head + pp(body, 2) + ".\n"
+
+
+def assigned_names(node, acc=None):
+    if acc is None:
+        acc = set()
+    if isinstance(node, Node):
+        if node.kind == "assign":
+            acc.add(node.name)
+        for v in node.__dict__.values():
+            assigned_names(v, acc)
+    elif isinstance(node, (list, tuple)):
+        for v in node:
+            assigned_names(v, acc)
+    return acc
+
+
+def let_names(node, acc=None):
+    if acc is None:
+        acc = set()
+
+    def pat(p):
+        if p[0] == "id":
+            acc.add(p[1])
+        else:
+            for q in p[1]:
+                pat(q)
+    if isinstance(node, Node):
+        if node.kind == "let":
+            pat(node.pat)
+        for v in node.__dict__.values():
+            let_names(v, acc)
+    elif isinstance(node, (list, tuple)):
+        for v in node:
+            let_names(v, acc)
+    return acc
+
+
+def has_kind(node, kind):
+    if isinstance(node, Node):
+        return node.kind == kind or any(has_kind(v, kind) for v in node.__dict__.values())
+    if isinstance(node, (list, tuple)):
+        return any(has_kind(v, kind) for v in node)
+    return False
+
+
+def wrap_tail(ir, extra, fresh):
+    """every point where the IR returns the function's value `t` returns `(t, extra...)` instead"""
+    k = ir[0]
+    if k == "ret":
+        return ("ret", "(%s)" % ", ".join([ir[1]] + extra))
+    if k == "comp":
+        x = fresh()
+        return ("bind", x, ir, ("ret", "(%s)" % ", ".join([x] + extra)))
+    if k == "fail":
+        return ir
+    if k == "bind" or k == "let":
+        return (k, ir[1], ir[2], wrap_tail(ir[3], extra, fresh))
+    if k == "if":
+        return ("if", ir[1], wrap_tail(ir[2], extra, fresh), wrap_tail(ir[3], extra, fresh))
+    if k in ("matchopt", "matchres"):
+        return (k, ir[1], ir[2], wrap_tail(ir[3], extra, fresh), wrap_tail(ir[4], extra, fresh))
+    if k == "matchenum":
+        return (k, ir[1], [(c, wrap_tail(a, extra, fresh)) for c, a in ir[2]])
+    raise AssertionError(ir)
 
 
 def builtin_type(name, line):
@@ -1456,6 +2024,16 @@ def pp_(ir, ind):
             return " " + pp_(x, ind + 4) if x[0] in ("ret", "comp", "fail") else "\n%s    (%s)" % (sp, pp_(x, ind + 5))
         return "match %s with\n%s| None =>%s\n%s| Some %s =>%s\n%send" % (
             ir[1], sp, arm(ir[4]), sp, ir[2], arm(ir[3]), sp)
+    if k == "matchres":
+        def arm(x):
+            return " " + pp_(x, ind + 4) if x[0] in ("ret", "comp", "fail") else "\n%s    (%s)" % (sp, pp_(x, ind + 5))
+        return "match %s with\n%s| RErr =>%s\n%s| ROk %s =>%s\n%send" % (
+            ir[1], sp, arm(ir[4]), sp, ir[2], arm(ir[3]), sp)
+    if k == "matchenum":
+        def arm(x):
+            return " " + pp_(x, ind + 4) if x[0] in ("ret", "comp", "fail") else "\n%s    (%s)" % (sp, pp_(x, ind + 5))
+        return "match %s with\n%s%send" % (
+            ir[1], "".join("%s| %s =>%s\n" % (sp, c, arm(a)) for c, a in ir[2]), sp)
     raise AssertionError(ir)
 
 
@@ -1481,6 +2059,222 @@ def find_fn(src, name, nth, line_starts):
         lines = [bisect.bisect_right(line_starts, h) for h in hits]
         raise Unsupported("function `%s` occurs %d times (lines %s); set nth= in the table" % (name, len(hits), lines))
     return hits[0]
+
+
+def in_comment(src, pos):
+    ls = src.rfind("\n", 0, pos) + 1
+    return "//" in src[ls:pos]
+
+
+def read_enum(repo, name, spec):
+    """variants of the fieldless enum `name`, read from the source"""
+    rel = spec["file"]
+    path = os.path.join(repo, rel)
+    if not os.path.isfile(path):
+        raise Unsupported("enum %s: source file %s not found" % (name, rel))
+    src = open(path, encoding="utf-8").read()
+    hits = [m for m in re.finditer(r"\benum\s+%s\s*\{" % re.escape(name), src) if not in_comment(src, m.start())]
+    if len(hits) != 1:
+        raise Unsupported("enum %s: found %d definitions in %s" % (name, len(hits), rel))
+    end = src.find("}", hits[0].end())
+    body = src[hits[0].end():end]
+    if "{" in body or "(" in body or "=" in body:
+        raise Unsupported("enum %s in %s is not fieldless (or has explicit discriminants)" % (name, rel))
+    body = re.sub(r"//[^\n]*", "", body)
+    body = re.sub(r"#\[[^\]]*\]", "", body)
+    variants = [v.strip() for v in body.split(",") if v.strip()]
+    for v in variants:
+        if not re.match(r"^[A-Za-z_]\w*$", v):
+            raise Unsupported("enum %s in %s: cannot read variant `%s`" % (name, rel, v))
+    if not variants:
+        raise Unsupported("enum %s in %s has no variants" % (name, rel))
+    return variants
+
+
+def read_const(src, entry, line_starts):
+    name = entry["fn"]
+    hits = [m for m in re.finditer(r"\bconst\s+%s\s*:\s*(\w+)\s*=\s*([^;]+);" % re.escape(name), src)
+            if not in_comment(src, m.start())]
+    if len(hits) != 1:
+        raise Unsupported("const `%s`: found %d definitions" % (name, len(hits)))
+    m = hits[0]
+    line = bisect.bisect_right(line_starts, m.start())
+    if m.group(1) not in INT_BITS:
+        raise Unsupported("const `%s` of type %s (only unsigned integers)" % (name, m.group(1)), line)
+    bits = INT_BITS[m.group(1)]
+    lit = re.match(r"^\s*([0-9][0-9_]*)(?:%s)?\s*$" % m.group(1), m.group(2))
+    if not lit:
+        raise Unsupported("const `%s` is not a plain decimal literal: %s" % (name, m.group(2).strip()), line)
+    v = int(lit.group(1).replace("_", ""))
+    if v >= 2 ** bits:
+        raise Unsupported("const `%s` out of range" % name, line)
+    return ("int", bits), v, line
+
+
+def check_pins(repo, group):
+    """`pins`: pieces of source the table RELIES on without translating them (e.g. the one-line
+    forwarding methods of a newtype).  Each is compared token by token with the expected text."""
+    for pin in group.get("pins", []):
+        rel = pin["file"]
+        path = os.path.join(repo, rel)
+        if not os.path.isfile(path):
+            raise Unsupported("pin: source file %s not found" % rel)
+        src = open(path, encoding="utf-8").read()
+        ls = [0] + [m.end() for m in re.finditer("\n", src)]
+        if pin.get("decl"):
+            # a declaration without a body (trait method): the text must occur, token by token
+            rx = r"\s*".join(re.escape(t.val) for t in tokenize_text(pin["text"]))
+            if not [m for m in re.finditer(rx, src) if not in_comment(src, m.start())]:
+                ex = Unsupported("pinned declaration `%s` not found" % pin["text"])
+                ex.where = rel
+                raise ex
+            continue
+        pos = find_fn(src, pin["fn"], pin.get("nth"), ls)
+        toks = tokenize_fn(src, pos, ls)
+        got = " ".join(t.val for t in toks)
+        want = " ".join(t.val for t in tokenize_text(pin["text"]))
+        if got != want:
+            ex = Unsupported("pinned source changed: expected `%s`, found `%s`" % (want, got), toks[0].line)
+            ex.where = "%s:%d: fn %s" % (rel, toks[0].line, pin["fn"])
+            raise ex
+
+
+def tokenize_text(text):
+    out = []
+    pos = 0
+    while pos < len(text):
+        m = TOK_RE.match(text, pos)
+        if not m:
+            raise Unsupported("cannot tokenize %r" % text[pos:pos + 20])
+        pos = m.end()
+        kind = m.lastgroup
+        if kind in ("ws", "lc"):
+            continue
+        if m.group("num") is not None:
+            out.append(Tok("num", m.group("num"), 0, m.group("suf")))
+        else:
+            out.append(Tok(kind, m.group(kind), 0))
+    return out
+
+
+def fn_span(src, pos, line_starts):
+    """[start, end) of the function item starting at pos"""
+    depth = 0
+    p = pos
+    n = len(src)
+    while p < n:
+        if src.startswith("/*", p):
+            q = src.find("*/", p + 2)
+            p = n if q < 0 else q + 2
+            continue
+        m = TOK_RE.match(src, p)
+        if not m:
+            raise Unsupported("cannot tokenize %r" % src[p:p + 20], bisect.bisect_right(line_starts, p))
+        p = m.end()
+        if m.lastgroup == "op":
+            v = m.group("op")
+            if v == "{":
+                depth += 1
+            elif v == "}":
+                depth -= 1
+                if depth == 0:
+                    return pos, p
+    raise Unsupported("unbalanced braces while reading the function")
+
+
+def statement_end(src, pos, limit, line_starts):
+    """offset just after the `;` that terminates the statement starting at pos (a statement that
+    starts with `if` ends with the `}` of its last block)"""
+    depth = 0
+    p = pos
+    is_if = re.match(r"if\b", src[pos:pos + 3]) is not None
+    while p < limit:
+        if src.startswith("/*", p):
+            q = src.find("*/", p + 2)
+            p = limit if q < 0 else q + 2
+            continue
+        m = TOK_RE.match(src, p)
+        if not m:
+            raise Unsupported("cannot tokenize %r" % src[p:p + 20], bisect.bisect_right(line_starts, p))
+        p = m.end()
+        if m.lastgroup == "op":
+            v = m.group("op")
+            if v in "([{":
+                depth += 1
+            elif v in ")]}":
+                depth -= 1
+                if depth < 0:
+                    break
+                if is_if and v == "}" and depth == 0 and not re.match(r"\s*else\b", src[p:p + 200]):
+                    return p
+            elif v == ";" and depth == 0:
+                return p
+    raise Unsupported("fragment: no terminating `;` found", bisect.bisect_right(line_starts, pos))
+
+
+def fragment_tokens(src, entry, line_starts):
+    """tokens of the synthetic function around the fragment, with the source's line numbers"""
+    fpos = find_fn(src, entry["within"], entry["nth"], line_starts)
+    fstart, fend = fn_span(src, fpos, line_starts)
+    pieces = []
+    last = fstart
+    for anchor in entry["stmts"]:
+        parts = [re.escape(x) for x in anchor.split()]
+        rx = r"\s*".join(parts)
+        if re.match(r"\w", anchor):
+            rx = r"\b" + rx
+        if re.search(r"\w$", anchor):
+            rx = rx + r"\b"
+        hits = [m for m in re.finditer(rx, src[fstart:fend]) if not in_comment(src, fstart + m.start())]
+        if len(hits) != 1:
+            raise Unsupported("fragment `%s`: anchor `%s` found %d times in fn %s (must be exactly once)"
+                              % (entry["coq"], anchor, len(hits), entry["within"]),
+                              bisect.bisect_right(line_starts, fstart))
+        a = fstart + hits[0].start()
+        if a < last:
+            raise Unsupported("fragment `%s`: anchor `%s` occurs before the previous one" % (entry["coq"], anchor),
+                              bisect.bisect_right(line_starts, a))
+        b = statement_end(src, a, fend, line_starts)
+        last = b
+        pieces.append((a, b))
+    first_line = bisect.bisect_right(line_starts, pieces[0][0])
+    head = "fn %s(%s) -> %s {" % (entry["coq"], ", ".join("%s: %s" % pt for pt in entry["fparams"]), entry["fret"])
+    toks = [Tok(t.kind, t.val, first_line, t.suf) for t in tokenize_text(head)]
+    for (a, b) in pieces:
+        p = a
+        while p < b:
+            if src.startswith("/*", p):
+                p = src.find("*/", p + 2) + 2
+                continue
+            m = TOK_RE.match(src, p)
+            line = bisect.bisect_right(line_starts, p)
+            p = m.end()
+            kind = m.lastgroup
+            if kind in ("ws", "lc"):
+                continue
+            if m.group("num") is not None:
+                toks.append(Tok("num", m.group("num"), line, m.group("suf")))
+            else:
+                toks.append(Tok(kind, m.group(kind), line))
+    last_line = bisect.bisect_right(line_starts, pieces[-1][1] - 1)
+    toks += [Tok(t.kind, t.val, last_line, t.suf) for t in tokenize_text(entry["result"] + " }")]
+    # opaque sub-expressions -> free variables
+    for text, var in entry["opaque"].items():
+        pat = [t.val for t in tokenize_text(text)]
+        out, i, n = [], 0, 0
+        while i < len(toks):
+            if [t.val for t in toks[i:i + len(pat)]] == pat:
+                out.append(Tok("id", var, toks[i].line))
+                i += len(pat)
+                n += 1
+            else:
+                out.append(toks[i])
+                i += 1
+        if n == 0:
+            raise Unsupported("fragment `%s`: the expression `%s` does not occur in it" % (entry["coq"], text),
+                              first_line)
+        toks = out
+    return toks
 
 
 def toposort(names, deps):
@@ -1512,14 +2306,37 @@ def translate_group(repo, group):
     src = open(path, encoding="utf-8").read()
     line_starts = [0] + [m.end() for m in re.finditer("\n", src)]
     parsed = {}
-    for entry in group["kernels"]:
+    consts = {}
+    try:
+        group["enum_variants"] = {n: read_enum(repo, n, sp) for n, sp in group.get("enums", {}).items()}
+        check_pins(repo, group)
+    except Unsupported as ex:
+        if not hasattr(ex, "where"):
+            ex.where = rel
+        raise
+    all_entries = group["kernels"]
+    for entry in all_entries:
         try:
-            pos = find_fn(src, entry["fn"], entry["nth"], line_starts)
-            toks = tokenize_fn(src, pos, line_starts)
-            parsed[entry["fn"]] = Parser(toks, group.get("types", {})).parse_fn()
+            if entry["kind"] == "const":
+                consts[entry["fn"]] = read_const(src, entry, line_starts)
+                continue
+            if entry["kind"] == "frag":
+                toks = fragment_tokens(src, entry, line_starts)
+            else:
+                pos = find_fn(src, entry["fn"], entry["nth"], line_starts)
+                toks = tokenize_fn(src, pos, line_starts)
+            parsed[entry["fn"]] = Parser(toks, group.get("types", {}), group["enum_variants"],
+                                         group.get("newtypes", {}), entry.get("self_fields")).parse_fn()
         except Unsupported as ex:
-            ex.where = "%s%s: fn %s" % (rel, ":%d" % ex.line if ex.line else "", entry["fn"])
+            ex.where = "%s%s: %s %s" % (rel, ":%d" % ex.line if ex.line else "",
+                                        "fragment" if entry["kind"] == "frag" else entry["kind"], entry["fn"])
             raise
+    group["_consts"] = consts
+    NT_COQ.clear()
+    for n, sp in group.get("newtypes", {}).items():
+        NT_COQ[n] = "Z" if sp["repr"] in SINT_BITS else "N"
+    group = dict(group)
+    group["kernels"] = [e for e in all_entries if e["kind"] != "const"]
     # signatures first (calls may go to functions defined later in the file)
     kernels = {}
     for entry in group["kernels"]:
@@ -1559,22 +2376,36 @@ def translate_group(repo, group):
             raise ex
         infos.append({"name": entry["fn"], "coq": "%s.%s" % (group["module"], entry["coq"]),
                       "source": "%s:%d" % (rel, f.line)})
+        if entry["kind"] == "frag":
+            infos[-1]["fragment_of"] = entry["within"]
+    for cn, (cty, cv, cl) in consts.items():
+        infos.append({"name": cn, "coq": "%s.%s" % (group["module"], cn), "source": "%s:%d" % (rel, cl)})
     names = [e["fn"] for e in group["kernels"]]
     try:
         order = toposort(names, deps)
     except Unsupported as ex:
         ex.where = rel
         raise
-    first = min(parsed[n].line for n in names)
+    first = min([parsed[n].line for n in names] + [c[2] for c in consts.values()])
     out = ["(* GENERATED by tools/rs2v.py from %s:%d -- do not edit.\n"
            "   Regenerated from the Rust source on every run; Kernels/KernelEq.v proves each of these\n"
            "   equal to the hand-written model.  None = the Rust code panics (debug build);\n"
            "   usize = %d bit. *)\n"
            "From Astria Require Import Base.KernelLib.\n" % (rel, first, USIZE_BITS)]
+    for en, vs in group["enum_variants"].items():
+        out.append("(* enum %s, %s *)\nInductive %s := %s.\n" % (en, group["enums"][en]["file"], en, " | ".join(vs)))
+    for cn, (cty, cv, cl) in consts.items():
+        out.append("(* %s:%d  const %s: %s *)\nDefinition %s : N := %d.\n" % (rel, cl, cn, show_ty(cty), cn, cv))
+    kinds = {e["fn"]: e for e in group["kernels"]}
     for n in order:
         f = parsed[n]
         sig = "fn %s(%s) -> %s" % (n, ", ".join("%s: %s" % (pn, show_ty(pt)) for pn, pt in kernels[n]["params"]),
                                    show_ty(kernels[n]["ret"]))
+        if kinds[n]["kind"] == "frag":
+            sig = "FRAGMENT of fn %s (statements %s), read as  %s" % (
+                kinds[n]["within"], "; ".join("`%s ...`" % a for a in kinds[n]["stmts"]), sig)
+        elif f.recv is not None:
+            sig = "method (%sself)  %s" % ({"ref": "&", "mut": "&mut ", "val": ""}[f.recv], sig)
         out.append("(* %s:%d  %s *)\n%s" % (rel, f.line, sig, texts[n]))
     return "\n".join(out), infos
 
